@@ -128,6 +128,23 @@ def run(ctx):
         # a bare array that is not all zero, however small, is not the dimensionless zero
         arr_jobs.append({'op': rng.choice(['add', 'sub', 'lt', 'ge']), 'a': {'arr': [1.0, -2.0, 0.5], 'u': da}, 'b': {'arr': [1e-9, 0.0, -2e-9], 'u': None},
                          'dims': (da, 'tiny-bare')})
+    # abs of an array quantity must not touch its operand
+    ab_jobs = [{'op': 'abs_reuse', 'a': {'arr': [-1.5, 2.0, -0.25, 0.0], 'u': d}} for d in DIMS[:9]]
+    for j, r in zip(ab_jobs, vlib.run_impl_sharded('units', ab_jobs)):
+        ctx.count('abs-reuse:%s' % j['a']['u'])
+        xs = j['a']['arr']
+        try:
+            f = r['abs']['v'][1] / 2.0          # SI factor of the unit
+            ok = all(abs(g - abs(x) * f) <= 1e-12 * abs(g) + 1e-300 for g, x in zip(r['abs']['v'], xs)) \
+                and all(abs(g - x * f) <= 1e-12 * abs(g) + 1e-300 for g, x in zip(r['a_after']['v'], xs)) \
+                and all(abs(g - (x + abs(x)) * f) <= 1e-12 * abs(g) + 1e-300 for g, x in zip(r['sum']['v'], xs)) \
+                and [bool(v) for v in r['lt']['v']] == [x < abs(x) for x in xs] \
+                and all(abs(g - (abs(x) - x) * f) <= 1e-12 * abs(g) + 1e-300 for g, x in zip(r['diff']['v'], xs))
+        except Exception:
+            ok = False
+        if not ok:
+            ctx.violate('abs-reuse:%s' % j['a']['u'], 'abs of an array quantity changed its operand, or a + abs(a), a < abs(a), abs(a) - a disagree with the magnitudes',
+                        j, [abs(x) for x in xs], r)
     # conversions of array quantities: compatible units give the ratio, incompatible ones are refused
     conv_jobs = []
     for da, db in itertools.product(DIMS[:9], DIMS[:9]):
